@@ -547,7 +547,7 @@ PLANS["C08"] = dict(
           "16 types (File, Vec<File>, Option<File>, tuples of files, texts, maps), percent_decode(_utf8), iter_cookies, FromParam::from_raw_param for all 13 param types, and the Set-Cookie accessors "
           "on lines built from hostile directive strings; inputs: uniform random bytes, grammar-valid encodings, mutants (delimiter doubling/removal, truncation, '%' + 0-2 arbitrary bytes, high bytes, "
           "NUL, huge digit strings, commas, boundary look-alikes, LF-only, broken headers). Every input is run against every target type of its decoder. Oracle: no panic, no process death, no call "
-          "beyond 2 s CPU (watchdog: 20 s wall kills the worker and the journal names the call), every yielded str valid UTF-8, every borrowed slice inside the input. distinct_nontrivial = distinct "
+          "beyond 2 s of thread CPU time, confirmed by three re-measurements (watchdog: 20 s wall kills the worker and the journal names the call), every yielded str valid UTF-8, every borrowed slice inside the input. distinct_nontrivial = distinct "
           "(decoder, target type, outcome, input class)."),
     quick=[R("c08", "rel", 40_000, max_restarts=4), R("c08", "dbg", 10_000, max_restarts=4), R("c08", "miri", 48, shards=8, flags={"small": 1})],
     thorough=[R("c08", "rel", 3_000_000), R("c08", "dbg", 400_000), R("c08", "asan", 600_000), R("c08", "miri", 3_200, shards=16, flags={"small": 1})],
